@@ -31,6 +31,9 @@ import Pandora.Bridge.C15Walk
 import Pandora.Proofs.C15Tmpl
 import Pandora.Proofs.C15Jpath
 import Pandora.Bridge.C15Tmpl
+import Pandora.Proofs.C15R6
+import Pandora.Proofs.C15Prep
+import Pandora.Proofs.C15Pub
 
 namespace Pandora.Props.C15
 open Pandora.Model.C15 Pandora.Spec.C15 Pandora.Proofs.C15
@@ -787,6 +790,101 @@ theorem C15_jsonpath_source {β J V : Type} (decode : β → Option J) (get : St
 
 /-! ## non-vacuity: concrete inputs meeting the hypotheses of every theorem -/
 
+/-! ## round 6: size limits, one report per step, `prepareRequest`, min_waiting_time, concurrent first use of a template -/
+
+/-- **the ring is bounded** (repair 4cfc662): an accepted description spreads into at most `config.MaxSpreadSize` (2^24)
+ammo, whatever the weights — larger ones are the error `toolarge`, never a `make` that panics or exhausts the memory -/
+theorem C15_spread_bounded {ρ} (reqs : List Char → Option ρ) (scs : List ScenarioCfg) (ring : List (Scenario ρ))
+    (hnd : (scs.map (·.name)).Nodup) (hw : ∀ sc ∈ scs, 0 ≤ sc.weight)
+    (h : decodeAmmo reqs scs = .ok ring) : (ring.length : Int) ≤ maxSpreadSize :=
+  decodeAmmo_len reqs scs ring hnd hw h
+
+/-- the refusal after `SpreadNames` is `config.CheckSpread` as regenerated from the source (total or some count negative
+or above `MaxSpreadSize`), applied by `decodeAmmo` before it allocates -/
+theorem C15_spread_refused_source (names : List (List Char × Int)) (total : Int) :
+    (spreadRefused names total = true ↔
+      (Gen.C15Scen.spreadTotalRefused total ∨ ∃ nc ∈ names, Gen.C15Scen.spreadCntRefused nc.2)) ∧
+    Gen.C15Scen.spreadChecked = true :=
+  ⟨Bridge.C15Scen.spreadRefused_iff names total, rfl⟩
+
+/-- **every executed step is reported exactly once** (seed C15-r6-1: a step the target answered was reported a second
+time, as failed, when the pause after it was interrupted): a shot appends exactly one sample per executed step — as many
+samples as steps and none of them failed when the shot succeeds; `i + 1` samples of which exactly the last is failed when
+step `i` fails. -/
+theorem C15_sample_once {Req Resp : Type} (w : World Req Resp) (source : Val) (sc : Scenario ReqDef)
+    (g : GState Req) (b : Bool) (g' : GState Req) (h : shoot w source sc g = some (b, g')) :
+    ∃ evs, g'.log = g.log ++ evs ∧
+      (b = true → evs.countP isSample = sc.steps.length ∧ evs.countP isFailedSample = 0) ∧
+      (b = false → ∃ i, i < sc.steps.length ∧ evs.countP isSample = i + 1 ∧ evs.countP isFailedSample = 1 ∧
+        ∃ tag, evs.getLast? = some (.sample tag 0 true)) := by
+  obtain ⟨hok, hfail⟩ := C15_stop_on_failure w source sc g b g' h
+  cases b with
+  | true =>
+    obtain ⟨rcs, hlen, hlog⟩ := hok rfl
+    refine ⟨_, by rw [hlog], fun _ => okRun_samples _ sc.steps rcs hlen, fun hb => by cases hb⟩
+  | false =>
+    obtain ⟨i, hi, rcs, pre, hlen, hpre, hlog⟩ := hfail rfl
+    have hl : rcs.length = (sc.steps.take i).length := by rw [hlen, List.length_take]; omega
+    have hcnt := okRun_samples (String.ofList sc.name) (sc.steps.take i) rcs hl
+    have hti : (sc.steps.take i).length = i := by rw [List.length_take]; omega
+    refine ⟨okRun (String.ofList sc.name) (sc.steps.take i) rcs ++ pre ++
+      [.sample (failTag (stepTag (String.ofList sc.name) sc.steps[i])) 0 true], ?_, ?_, ?_⟩
+    · rw [hlog]; simp [List.append_assoc]
+    · intro hb; cases hb
+    · intro _
+      refine ⟨i, hi, ?_, ?_, failTag (stepTag (String.ofList sc.name) sc.steps[i]), by simp⟩
+      · rcases hpre with rfl | ⟨r, rfl⟩ <;>
+          simp [List.countP_append, hcnt.1, hti, isSample, List.countP_cons]
+      · rcases hpre with rfl | ⟨r, rfl⟩ <;>
+          simp [List.countP_append, hcnt.2, isFailedSample, List.countP_cons]
+
+/-- **`prepareRequest` as regenerated** (statement list with Go's `err` explicit, over arbitrary `http.NewRequest`,
+header canonicalisation and `net.SplitHostPort`) computes the direct reading `prepareRequest` of the model -/
+theorem C15_prepare_source (lib : PrepLib) (cfg : PrepCfg) (p : ReqParts) :
+    runPrepOps lib cfg p Gen.C15Flow.prepCode {} = some (prepareRequest lib cfg p) := by
+  rw [Bridge.C15Flow.prepCode_eq]; exact runPrep_eq lib cfg p
+
+/-- **which host the target sees** (repair 789fa67): when the request can be built, the Host on the wire is the value of
+the LAST visited header whose name is `Host` in any case (simple case folding: also `hoſt`), else the host of the
+rendered URL, and — when that is empty — the configured target without its port; the connection always goes to the
+resolved target, the scheme follows the `ssl` option, and a header named Host is not sent as an ordinary header. -/
+theorem C15_prepare_host (lib : PrepLib) (cfg : PrepCfg) (p : ReqParts) (uh : String)
+    (hn : lib.newReq p.method p.url = some uh) :
+    ∃ q, prepareRequest lib cfg p = some q ∧
+      q.host = (let h := (((p.headers.filter fun kv => equalFoldTo "Host" kv.1).getLast?).map (·.2)).getD uh
+                if h == "" then hostWithoutPort lib cfg.target else h) ∧
+      q.urlHost = cfg.targetResolved ∧ q.scheme = (if cfg.ssl then "https" else "http") ∧
+      ((∀ kv ∈ p.headers, equalFoldTo "Host" kv.1 = false) →
+        q.header = p.headers.foldl (fun m kv => setKey (lib.canon kv.1) kv.2 m) []) := by
+  unfold prepareRequest
+  rw [hn]
+  refine ⟨_, rfl, ?_, rfl, rfl, ?_⟩
+  · simp only [prepHeaders_host]
+  · intro hno
+    simp only [prepHeaders_header_of_noHost lib p.headers _ hno]
+
+/-- **min_waiting_time** as regenerated from the tail of `shoot`: a shot in which no step failed lasts at least
+`min_waiting_time` (the pause added is exactly the remainder, and none when the steps took longer) -/
+theorem C15_min_waiting_time (m spent : Int) :
+    spent + (Gen.C15Flow.mwtPause m spent).getD 0 = max m spent ∧
+    (∀ p, Gen.C15Flow.mwtPause m spent = some p → 0 < p) := by
+  rw [Bridge.C15Flow.mwtPause_eq]
+  exact ⟨mwtPause_total m spent, fun p => mwtPause_pos m spent p⟩
+
+/-- **concurrent first use of a template slot** (seed C15-r6-2): `getTemplate` of both templaters AS REGENERATED (load; on a
+miss parse, check, store; return), executed one statement at a time by any number of instances under EVERY schedule,
+never returns a template object that is not parsed — every call that has returned got a parsed object, and every object
+the cache ever holds is parsed. -/
+theorem C15_template_first_use (sched : List Nat) (t : Nat) :
+    ofGetCode Gen.C15Tmpl.getCodeHTML = realGet ∧ ofGetCode Gen.C15Tmpl.getCodeText = realGet ∧
+    (((PSys.init realGet).run sched).ths t).exposed = false ∧
+    (∀ i, ((PSys.init realGet).run sched).cache = some i → ((PSys.init realGet).run sched).heap.getD i false = true) := by
+  have hinv := run_inv (PSys.init realGet) sched init_inv
+  refine ⟨by rw [Bridge.C15Tmpl.getCodeHTML_eq]; exact ofGetCode_getCode,
+          by rw [Bridge.C15Tmpl.getCodeText_eq]; exact ofGetCode_getCode, (hinv.ths t).1, ?_⟩
+  intro i hi
+  exact hinv.parsed i (hinv.cache i hi)
+
 section Examples
 
 /-- the request registry of the bundled payload -/
@@ -815,6 +913,29 @@ example : expand exReqs ["auth_req(1048577)".toList] [] = .err "toomany" ∧
     expand exReqs ["auth_req(3)".toList, "list_req(1048574)".toList] [] = .err "toomany" ∧
     (parseAll ["auth_req(3)".toList, "list_req(1048574)".toList]).map (domOK exReqs · 0) = some false ∧
     (parseAll ["auth_req(3)".toList, "list_req(1048573)".toList]).map (domOK exReqs · 0) = some true := by decide
+
+-- C15_template_first_use is not blind: the publish-first order of seed C15-r6-2 under the schedule "instance 0 publishes
+-- the empty object, instance 1 loads and returns it" exposes an unparsed template; the real order under the same
+-- schedule (and a longer one in which both finish) does not
+example : (((PSys.init publishFirst).run [0, 1, 1, 1]).ths 1).exposed = true ∧
+    (((PSys.init realGet).run [0, 1, 1, 1, 0, 0, 1, 1, 0, 0, 0, 1, 1, 1, 0]).ths 1).exposed = false ∧
+    (((PSys.init realGet).run [0, 1, 1, 1, 0, 0, 1, 1, 0, 0, 0, 1, 1, 1, 0]).ths 1).returned = some (some 0) := by decide
+
+/-- a toy library for `prepareRequest`: the URL `//u/a` carries a host, `X-A` is canonicalised to `x-a` -/
+def exPrepLib : PrepLib :=
+  { newReq := fun m u => if m == "BAD" then none else if u == "//u/a" then some "url.host" else some "",
+    canon := fun k => if k == "X-A" then "x-a" else k,
+    splitHost := fun t => if t == "127.0.0.1:8080" then some "127.0.0.1" else none }
+
+-- C15_prepare_host: a Host header in any case (also with the long s) wins, is not sent as a header, the default is the
+-- target without port; an error of NewRequest is returned
+example : (prepareRequest exPrepLib ⟨false, "127.0.0.1:8080", "10.0.0.1:80"⟩
+      ⟨"/a", "GET", none, [("X-A", "1"), ("hoſt", "example.org"), ("x-a", "2")]⟩).map (fun q => (q.host, q.urlHost, q.scheme, q.header)) =
+      some ("example.org", "10.0.0.1:80", "http", [("x-a", "2")]) ∧
+    (prepareRequest exPrepLib ⟨true, "127.0.0.1:8080", "10.0.0.1:80"⟩ ⟨"/a", "GET", some "b", []⟩).map (fun q => (q.host, q.scheme, q.hasBody)) =
+      some ("127.0.0.1", "https", true) ∧
+    (prepareRequest exPrepLib ⟨true, "nohostport", "x"⟩ ⟨"//u/a", "GET", none, [("Host", "")]⟩).map (·.host) = some "nohostport" ∧
+    prepareRequest exPrepLib ⟨true, "t", "x"⟩ ⟨"/a", "BAD", none, []⟩ = none := by decide
 
 /-- text of a leaf of a variable tree -/
 def strAt : Val → List String → Option String
